@@ -439,4 +439,113 @@ theorem callI_result_eq (S : ISem) (p : IProg) (hs : safeInternal p = true) (E1 
   simp only [callI, ← hp]
   rw [this.1]
 
+
+/-! ## Programs with a loop -/
+
+theorem check_append (p q : List Instr) (A : Abs) :
+    check (p ++ q) A = (check p A).bind (check q) := by
+  induction p generalizing A with
+  | nil => rfl
+  | cons i p ih =>
+    simp only [List.cons_append, check]
+    cases checkStep A i with
+    | none => rfl
+    | some A' => exact ih A'
+
+theorem rounds_succ (n : Nat) (b : List Instr) : rounds (n + 1) b = b ++ rounds n b := by
+  simp [rounds, List.replicate_succ]
+
+theorem check_rounds (body : List Instr) (A : Abs) (h : check body A = some A) :
+    ∀ n, check (rounds n body) A = some A := by
+  intro n
+  induction n with
+  | zero => rfl
+  | succ n ih => rw [rounds_succ, check_append, h]; exact ih
+
+theorem unroll_succ_body (L : LoopProg) (k : Nat) :
+    (L.unroll (k + 1)).body = (L.pre ++ L.body) ++ (rounds k L.body ++ L.post) := by
+  simp [LoopProg.unroll, rounds_succ, List.append_assoc]
+
+theorem loop_safe (L : LoopProg) (h0 : safe (L.unroll 0) = true) (h1 : safe (L.unroll 1) = true) (hf : L.Fix) :
+    ∀ n, safe (L.unroll n) = true := by
+  intro n
+  cases n with
+  | zero => exact h0
+  | succ m =>
+    -- one round does not fail
+    have hsome : ∃ A, check (L.pre ++ L.body) Abs.init = some A := by
+      cases hc : check (L.pre ++ L.body) Abs.init with
+      | some A => exact ⟨A, rfl⟩
+      | none =>
+        exfalso
+        have : check (L.unroll 1).body Abs.init = none := by
+          rw [unroll_succ_body, check_append, hc]; rfl
+        simp [safe, this] at h1
+    obtain ⟨A, hA⟩ := hsome
+    have hst : stateAfter (L.pre ++ L.body) = A := by simp [stateAfter, hA]
+    have hfA : check L.body A = some A := by rw [LoopProg.Fix, hst] at hf; exact hf
+    have body_eq : ∀ k, check (L.unroll (k + 1)).body Abs.init = check L.post A := by
+      intro k
+      rw [unroll_succ_body, check_append, hA]
+      simp only [Option.bind]
+      rw [check_append, check_rounds L.body A hfA k]
+      rfl
+    have e1 := body_eq 0
+    have em := body_eq m
+    unfold safe at h1 ⊢
+    rw [em]; rw [e1] at h1; exact h1
+
+theorem viewList_append (a : Attr) (p q : List Instr) :
+    viewList a (p ++ q) = match viewList a p, viewList a q with
+      | some x, some y => some (x ++ y)
+      | _, _ => none := by
+  induction p with
+  | nil => simp [viewList]; cases viewList a q <;> rfl
+  | cons i p ih =>
+    simp only [List.cons_append, viewList, ih]
+    cases viewInstr a i <;> cases viewList a p <;> cases viewList a q <;> simp
+
+theorem viewList_rounds (a : Attr) (b vb : List Instr) (h : viewList a b = some vb) :
+    ∀ n, viewList a (rounds n b) = some (rounds n vb) := by
+  intro n
+  induction n with
+  | zero => rfl
+  | succ n ih => rw [rounds_succ, rounds_succ, viewList_append, h, ih]
+
+theorem viewProg_unroll (a : Attr) (L L' : LoopProg) (h : L.view a = some L') (n : Nat) :
+    viewProg a (L.unroll n) = some (L'.unroll n) := by
+  unfold LoopProg.view at h
+  cases hp : viewList a L.pre with
+  | none => simp [hp] at h
+  | some vp =>
+    cases hb : viewList a L.body with
+    | none => simp [hp, hb] at h
+    | some vb =>
+      cases hq : viewList a L.post with
+      | none => simp [hp, hb, hq] at h
+      | some vq =>
+        simp only [hp, hb, hq, Option.some.injEq] at h
+        subst h
+        simp [viewProg, LoopProg.unroll, viewList_append, hp, hq, viewList_rounds a _ _ hb n]
+
+
+
+theorem loop_safeAttr (a : Attr) (L : LoopProg) (hf : L.FixAll)
+    (hb : (match L.view a with | some L' => L'.base | none => false) = true) (n : Nat) :
+    safeAttr a (L.unroll n) = true := by
+  cases hv : L.view a with
+  | none => simp [hv] at hb
+  | some L' =>
+    simp only [hv, LoopProg.base, Bool.and_eq_true] at hb
+    simp only [safeAttr, viewProg_unroll a L L' hv n]
+    exact loop_safe L' hb.1 hb.2 (hf.2 a L' hv) n
+
+theorem loop_safeAll (L : LoopProg) (hb : L.baseAll = true) (hf : L.FixAll) (n : Nat) :
+    safeAll (L.unroll n) = true := by
+  simp only [LoopProg.baseAll, List.all_cons, List.all_nil, Bool.and_true, Bool.and_eq_true, LoopProg.base] at hb
+  obtain ⟨⟨h0, h1⟩, hg, hs⟩ := hb
+  simp only [safeAll, Bool.and_eq_true]
+  exact ⟨⟨loop_safe L h0 h1 hf.1 n, loop_safeAttr .grid L hf hg n⟩, loop_safeAttr .stokes L hf hs n⟩
+
+
 end HcipyVerif.Effects
